@@ -132,7 +132,7 @@ def run_loop(chk, pid):
         a = bound_args(adjust[0], chk.prog)
         ok = a.get("amount") is not None and a["amount"][0] == "fld" and a["amount"][2] == "initial_capital"
         chk.ob("C03.R5", ok, BACKTEST, host, "initial-capital-amount", "the strategy is funded with the backtest's initial capital", where=adjust[0].where)
-    if pid in ("C04", "C08", "C09", "C16"):
+    if pid in ("C04", "C08", "C09", "C16", "C01", "C02", "C07", "C03"):
         chk.need(loop_updates, "Backtest.run no longer updates the strategy inside the date loop")
         loop = loop_updates[0].loops[-1]
         it = loop.iter
@@ -143,11 +143,11 @@ def run_loop(chk, pid):
             for u in loop_updates:
                 chk.ob("C04.R5", canon(u.args[0]) == canon(loop.elem), BACKTEST, host, "update-at-loop-date", "the strategy is updated to the loop's date", where=u.where, found=short(u.args[0]))
         seq = [e.name for e in calls if in_loop(e) and e.name in ("update", "run")]
-        if pid in ("C08", "C09", "C04"):
+        if pid in ("C08", "C09", "C04", "C01", "C02", "C07", "C03"):
             ok = seq == ["update", "run", "update"]
             chk.ob("C09.R3" if pid == "C09" else "C08.R1", ok, BACKTEST, host, "loop-sequence", "each date is processed update -> run -> update (the second update records the trades of the date)",
                    where=fi.where, expected="update, run, update", found=", ".join(seq), sample={"sequence": seq})
-            if len(loop_updates) >= 2 and pid in ("C08",):
+            if len(loop_updates) >= 2 and pid in ("C08", "C01", "C02", "C07", "C03"):
                 second = loop_updates[-1]
                 extra = [l for l in plain(second.guard) if not sym.lit_holds(sym.sat(runs[0].guard), l[0], l[1])]
                 chk.ob("C08.R1", not extra and runs[0].seq < second.seq, BACKTEST, host, "post-run-update-unconditional",
